@@ -211,8 +211,11 @@ def harness_e2e(sym, part):
             if k == 0:
                 tls = cls.endswith('Tls')
                 sym.cover('want-write' if tls else 'eagain-send')
-                if tls:
-                    raise (ssl.SSLWantWriteError(ssl.SSL_ERROR_WANT_WRITE, 'w') if s.sends % 2 else ssl.SSLWantReadError(ssl.SSL_ERROR_WANT_READ, 'r'))
+                if tls:      # which of the two TLS would-block kinds is solver-chosen (want-read while peer data is readable matters)
+                    if sym.cbool('want_read%d' % s.sends):
+                        sym.cover_if('want-read-with-data-readable', len(s.inq) > 0)
+                        raise ssl.SSLWantReadError(ssl.SSL_ERROR_WANT_READ, 'r')
+                    raise ssl.SSLWantWriteError(ssl.SSL_ERROR_WANT_WRITE, 'w')
                 raise OSError(errno.EWOULDBLOCK if s.sends % 2 else errno.EAGAIN, 'again')
             c = {1: 1, 2: max(1, len(data) // 2), 3: len(data)}[k]
             if c < len(data):
@@ -228,7 +231,7 @@ def harness_e2e(sym, part):
                 e.tx(step)
                 total += step
             else:
-                if i == 1 and sym.cbool('rx_at_%d' % i):
+                if i <= 3 and sym.cbool('rx_at_%d' % i):      # peer data may become readable before either of the first two service passes
                     chunk = b'R%d' % i
                     sock.inq.append(chunk)
                     incoming += chunk
